@@ -209,28 +209,37 @@ func runC06(c *engine.Ctx) {
 			continue
 		}
 		c.Analysed(engine.FuncName(f))
-		// from the err != nil edge of send: return of that err, no load reachable
-		start := (*ssa.BasicBlock)(nil)
-		for _, b := range f.Blocks {
-			if ifi, ok := b.Instrs[len(b.Instrs)-1].(*ssa.If); ok {
-				if bo, ok := ifi.Cond.(*ssa.BinOp); ok && bo.Op == token.NEQ && engine.IsNilConst(bo.Y) && engine.LocalValue(bo.X) == ssa.Value(send) {
-					start = b.Succs[0]
+		// finite-domain evaluation with the send step made to fail: on no path may the loader run after a
+		// failed send, and every return after it hands on that very error (however the error is routed
+		// through locals on the way)
+		reLoad, retOther, sawSend := false, false, false
+		ev := &engine.Evaluator{MaxVisits: 2}
+		ev.Call = func(call *ssa.Call, get func(ssa.Value) engine.EVal) (engine.EVal, bool) {
+			if call == send {
+				return engine.EVal{K: engine.EPtr, Tok: send}, true
+			}
+			return engine.EVal{}, false
+		}
+		ev.Observe = func(in ssa.Instruction, get func(ssa.Value) engine.EVal) {
+			failed := get(send).K == engine.EPtr
+			if in == ssa.Instruction(send) {
+				sawSend = true
+			}
+			if !failed {
+				return
+			}
+			if in == ssa.Instruction(load) {
+				reLoad = true
+			}
+			if r, ok := in.(*ssa.Return); ok && len(r.Results) > 0 {
+				v := get(r.Results[0])
+				if v.K != engine.EPtr || v.Tok != ssa.Value(send) {
+					retOther = true
 				}
 			}
 		}
-		okExit := false
-		if start != nil {
-			reLoad, _ := engine.CanReachFromBlock(start, func(in ssa.Instruction) bool { return in == ssa.Instruction(load) }, nil)
-			retSame := true
-			for _, r := range engine.Returns(f) {
-				if r.Block() == start || start.Dominates(r.Block()) {
-					if engine.LocalValue(engine.ReturnValue(r, 0)) != ssa.Value(send) {
-						retSame = false
-					}
-				}
-			}
-			okExit = !reLoad && retSame
-		}
+		ev.Run(f)
+		okExit := sawSend && !ev.Aborted && !reLoad && !retOther
 		c.Decide(r1, engine.FuncName(f)+"|send-error-exits-loop", send.Pos(), okExit,
 			"a non-nil error from the send step leaves the traversal loop with that error; no further block is loaded",
 			"after the send step reports an error (e.g. paused) the traversal loop can load another block")
